@@ -223,10 +223,17 @@ fn exec_pr(case: &PrCase) -> Outcome {
 pub struct BbCase {
 	pub perm: Perm,
 	pub issuances: usize,
+	/// the mode / user / group options stand in the [global] table of an included file, the directories in the main file's
+	#[serde(default)]
+	pub split_global: bool,
+	/// a challenge hook writes its output into a directory that does not exist yet: the first attempt fails there, the directory is
+	/// created while the failure is reported, the following attempts succeed
+	#[serde(default)]
+	pub broken_output_first: bool,
 }
 
 fn bb_strategy() -> impl Strategy<Value = BbCase> {
-	(perm_strategy(), 1usize..=2).prop_map(|(perm, issuances)| BbCase { perm, issuances })
+	(perm_strategy(), 1usize..=2, prop_oneof![2 => Just(false), 1 => Just(true)], prop_oneof![2 => Just(false), 1 => Just(true)]).prop_map(|(perm, issuances, split_global, broken_output_first)| BbCase { perm, issuances, split_global, broken_output_first })
 }
 
 fn exec_bb(case: &BbCase) -> Outcome {
@@ -250,25 +257,43 @@ fn exec_bb(case: &BbCase) -> Outcome {
 	};
 	let p = &case.perm;
 	let mut global = lay.global();
+	let mut perm_opts = serde_json::Map::new();
 	if let Some(m) = p.cert_mode {
-		global["cert_file_mode"] = json!(m);
+		perm_opts.insert("cert_file_mode".into(), json!(m));
 	}
 	if let Some(m) = p.pk_mode {
-		global["pk_file_mode"] = json!(m);
+		perm_opts.insert("pk_file_mode".into(), json!(m));
 	}
 	for (k, v) in [("cert_file_user", &p.cert_user), ("cert_file_group", &p.cert_group), ("pk_file_user", &p.pk_user), ("pk_file_group", &p.pk_group)] {
 		if let Some(v) = v {
-			global[k] = json!(v);
+			perm_opts.insert(k.into(), json!(v));
+		}
+	}
+	let mut include: Vec<String> = vec![];
+	if case.split_global && !perm_opts.is_empty() {
+		let inc = dir.join("perms.toml");
+		let _ = std::fs::write(&inc, crate::toml_out::document(&json!({"global": perm_opts})));
+		include.push(inc.display().to_string());
+	} else {
+		for (k, v) in perm_opts.iter() {
+			global[k] = v.clone();
 		}
 	}
 	let fh = ["rec-file-pre-create", "rec-file-post-create", "rec-file-pre-edit", "rec-file-post-edit"];
 	let mut hooks: Vec<&str> = fh.to_vec();
+	let mut all_hooks = bb::std_hooks(&coll.sock);
+	let later = dir.join("created-later");
+	if case.broken_output_first {
+		all_hooks.push(json!({"name": "noisy", "type": ["challenge-http-01"], "cmd": "true", "stdout": later.join("out.txt").display().to_string(), "allow_failure": true}));
+		hooks.push("noisy");
+	}
 	hooks.extend(["rec-http-01", "rec-http-01-clean", "rec-post"]);
 	let cfg = json!({
+		"include": include,
 		"global": global,
 		"endpoint": [{"name": "e1", "url": ca.directory_url(), "tos_agreed": true}],
 		"account": [{"name": "a1", "contacts": [{"mailto": "a@c13.test"}], "env": {bb::ACCT_ENV: "a1"}, "hooks": fh}],
-		"hook": bb::std_hooks(&coll.sock),
+		"hook": all_hooks,
 		"certificate": [{"name": "c1", "account": "a1", "endpoint": "e1", "key_type": "ecdsa-p256", "hooks": hooks, "env": {bb::CERT_ENV: "c1"},
 			"identifiers": [{"dns": "m.c13.test", "challenge": "http-01"}]}],
 	});
@@ -279,7 +304,27 @@ fn exec_bb(case: &BbCase) -> Outcome {
 		Ok(d) => d,
 		Err(e) => return Outcome::Infra(e),
 	};
-	let end = bb::wait_total_postops(&coll, &mut daemon, case.issuances, Duration::from_secs(90));
+	let end = if case.broken_output_first {
+		// every post-operation record is held; after the first one (the expected failure) the missing directory is created
+		coll.hold_when(Box::new(|r, _| bb::is_post(r)));
+		let mut reached = WaitEnd::Timeout;
+		for k in 0..(case.issuances + 3) {
+			let ok = coll.wait_until(&|r| r.iter().filter(|x| bb::is_post(x)).count() > k, Duration::from_secs(60), &mut || daemon.state() != crate::daemon::ProcState::Alive);
+			if !ok {
+				break;
+			}
+			let _ = std::fs::create_dir_all(&later);
+			let successes = coll.records().iter().filter(|x| bb::is_post(x) && x.arg("is_success") == Some("true")).count();
+			if successes >= case.issuances {
+				reached = WaitEnd::Reached;
+				break;
+			}
+			coll.release_one();
+		}
+		reached
+	} else {
+		bb::wait_total_postops(&coll, &mut daemon, case.issuances, Duration::from_secs(90))
+	};
 	let run = bb::finish_run(&coll, daemon, end);
 	bb::cleanup(&dir);
 	if run.end != WaitEnd::Reached {
@@ -303,7 +348,12 @@ fn exec_bb(case: &BbCase) -> Outcome {
 			return Outcome::fail(sig, detail);
 		}
 	}
+	let mut excused = if case.broken_output_first { 1 } else { 0 };
 	for post in bb::post_of(&run.records, "c1") {
+		if post.arg("is_success") != Some("true") && excused > 0 && post.arg("status").map(|s| s.contains("out.txt") || s.contains("No such file")).unwrap_or(false) {
+			excused -= 1;
+			continue;
+		}
 		if post.arg("is_success") != Some("true") {
 			return Outcome::fail("C13:attempt-failed", format!("{:?}; {p:?}\n{}", post.arg("status"), run.stderr_tail));
 		}
@@ -314,11 +364,11 @@ fn exec_bb(case: &BbCase) -> Outcome {
 		}
 	}
 	let nontrivial = p.pk_mode.is_some() || p.pk_user.is_some() || p.pk_group.is_some();
-	Outcome::pass(nontrivial, vec![format!("umask={:03o}", p.umask), format!("issuances={}", case.issuances), format!("post-edit-seen={}", n_post_edit > 0)])
+	Outcome::pass(nontrivial, vec![format!("umask={:03o}", p.umask), format!("issuances={}", case.issuances), format!("post-edit-seen={}", n_post_edit > 0), format!("options-in-included-file={}", case.split_global), format!("failed-hook-output-first={}", case.broken_output_first)])
 }
 
 pub fn run(ctx: &Ctx, rep: &mut Report) {
-	rep.rule = "permission settings: cert_file_mode / pk_file_mode absent or any 9-bit value, user and group absent / by name / by number (accounts present in the image; the harness runs as root so chown is observable), process umask in {000,002,022,027,077}. pr: histories of 2..6 writes of certificate, key and account files (creations and rewrites) through the daemon's storage functions; bb: 1..2 issuances through the real daemon with file hooks attached to certificate and account. Oracle (stat from the probe / from the file-post-create, file-post-edit and post-operation recorders): mode == (configured or default 0644/0600/0600) & ~umask, uid/gid == configured (names resolved independently from /etc/passwd and /etc/group) else unchanged; account files 0600 and never chowned; a rewrite keeps the mode and re-applies the owner. Non-trivial = a private-key setting (mode, user or group) is configured.".into();
+	rep.rule = "permission settings: cert_file_mode / pk_file_mode absent or any 9-bit value, user and group absent / by name / by number (accounts present in the image; the harness runs as root so chown is observable), process umask in {000,002,022,027,077}. pr: histories of 2..6 writes of certificate, key and account files (creations and rewrites) through the daemon's storage functions; bb: 1..2 issuances through the real daemon with file hooks attached to certificate and account; in a third of the cases the options stand in an included file's [global] table; in a third a challenge hook's output file cannot be created at the first attempt (missing directory, created while the failure is reported), and the files written by the following attempts are judged. Oracle (stat from the probe / from the file-post-create, file-post-edit and post-operation recorders): mode == (configured or default 0644/0600/0600) & ~umask, uid/gid == configured (names resolved independently from /etc/passwd and /etc/group) else unchanged; account files 0600 and never chowned; a rewrite keeps the mode and re-applies the owner. Non-trivial = a private-key setting (mode, user or group) is configured.".into();
 	rep.assume("the harness runs as root (chown observable); only users/groups that exist in the image are generated");
 	run_replays::<PrCase>(ctx, rep, "pr", &exec_pr);
 	run_replays::<BbCase>(ctx, rep, "bb", &exec_bb);
